@@ -62,7 +62,8 @@ Record case := mkCase {
   c_env : env;
   c_cer_names : list (N * N);              (* child key -> file name of its certificate *)
   c_cmds : list cmd;
-  c_post : ca; c_post_objs : objects }.
+  c_post : ca; c_post_objs : objects;
+  c_renew : list (kind * Z) }.             (* a renewal run: object kinds with their thresholds (unix seconds) *)
 
 Definition cer_name_of (c : case) (ki : N) : N := match aget ki (c_cer_names c) with Some n => n | None => 0 end.
 
@@ -102,6 +103,16 @@ Definition kcmds_ok (s : ca) (m : cmd) : bool :=
                  end
     end) (m_kcmds m).
 
+(** A renewal run re-issues, in every class, exactly the objects that expire before the threshold. *)
+Definition updated_names_of (cl : N) (k : kind) (evs : list event) : list N :=
+  flat_map (fun e => match e with
+                     | EObjectsUpdated c k' updated _ => if (c =? cl) && kind_eqb k k' then map fst updated else []
+                     | _ => []
+                     end) evs.
+Definition renew_ok (s : ca) (renew : list (kind * Z)) (evs : list event) : bool :=
+  forallb (fun '(k, th) =>
+    forallb (fun '(cl, rc) => set_eqb (renew_names false th (rc_get_objs rc k)) (updated_names_of cl k evs)) (ca_classes s)) renew.
+
 (** Runs the commands of a case through the model: [None] if an event cannot be applied (panic), the
     listener refuses, or a key command is not predicted. *)
 Fixpoint run_cmds (env : env) (cn : N -> N) (s : ca) (o : objects) (ms : list cmd) : option (ca * objects) :=
@@ -124,7 +135,8 @@ Definition agrees (c : case) : bool :=
   match run_cmds (c_env c) (cer_name_of c) (c_pre c) (c_pre_objs c) (c_cmds c) with
   | None => false
   | Some (s, o) => ca_eqb s (c_post c) && objects_eqb o (c_post_objs c)
-  end.
+  end
+  && renew_ok (c_pre c) (c_renew c) (flat_map m_evs (c_cmds c)).
 
 (** ** Executable oracles on the implementation's observed states *)
 
